@@ -621,7 +621,8 @@ pub fn gen_request(rng: &mut Prng, rules: &[Value]) -> Value {
                 "contains" => format!("{}{}{}", rng.pick(&["", "a"]), value, rng.pick(&["", "z"])),
                 "ends_with" => format!("{}{}", rng.pick(&["", "a"]), value),
                 "starts_with" => format!("{}{}", value, rng.pick(&["", "z"])),
-                "match_regex" => instantiate(rng, value),
+                // unanchored search: surround the instance with other text half of the time
+                "match_regex" => format!("{}{}{}", rng.pick(&["", "", "a", "x-"]), instantiate(rng, value), rng.pick(&["", "", "z", "-9"])),
                 _ => value.to_string(),
             };
             if !miss(rng) {
